@@ -30,7 +30,7 @@ PROPS["C05"] = coop("TestProp", R + ">=2 waiters on one handle or a waiter parke
 PROPS["C06"] = coop("TestProp", R + "a barrier call started while an accepted job had not finished, or a PauseAndWait/Stop was issued")
 PROPS["C07"] = coop("TestProp", R + ">=2 different outcome kinds (value/error/panic) were executed in the episode")
 PROPS["C08"] = coop("TestProp", R + "an empty batch, a rejected/purged item, or >=2 items executed with concurrency >=2")
-PROPS["C09"] = coop("TestProp", R + "a Pause/PauseAndWait/Stop returned while >=1 accepted job was still pending")
+PROPS["C09"] = coop("TestProp", R + "a Pause/PauseAndWait/Stop returned while >=1 accepted job was still pending", quick=(4, 8000), thorough=(16, 40000))
 PROPS["C10"] = coop("TestProp", R + "a Close overlapped dispatch of the same job, a Close returned nil, or a Purge ran with >=2 jobs")
 PROPS["C16"] = coop("TestProp", R + "a job was dispatched before its Add returned, or >=2 status samples were taken")
 PROPS["C13"] = coop("TestProp", R + ">=2 consumers compete on one adapter, or a notification arrives while a consumer is busy")
